@@ -151,7 +151,7 @@ def run(facts, R):
             R.check(ok, "size-writer-pairs", b_.path, "a streamed frame declares the length of what its body closure writes",
                     "%s streams a frame whose declared body length and body writer are not one documented pair over the same value (%s): "
                     "the frame is not provably the buffered builder's frame for every input (empty slices included)" % (b_.path.rsplit("::", 1)[-1], det), t_.get("span"), det[:160])
-    R.floor("size-writer-pairs", n_stream, 3, "write_message_streaming call sites")
+    R.floor("size-writer-pairs", n_stream, 2, "write_message_streaming call sites")
 
     # aligned
     ab = facts.body("message::MessageBuilder::body_aligned_typed_slice")
